@@ -341,7 +341,9 @@ func (vm *VM) callNative(fn *NativeFunction, numVariadic int8, shift StackShift,
 			if i < lastNonVariadic {
 				if i < 2 && typ.In(i) == envType {
 					// Set the path of the file that contains the call.
-					if vm.main {
+					// vm.fn is nil if the call is a deferred call executed
+					// while the function that deferred it is panicking.
+					if vm.main && vm.fn != nil {
 						env := vm.env
 						env.mu.Lock()
 						env.callPath = vm.fn.InstructionInfo[vm.pc-1].Path
@@ -586,16 +588,14 @@ func (vm *VM) nextCall() bool {
 				if call.status == deferred {
 					vm.calls[i] = vm.calls[i+1]
 					vm.calls[i].status = panicked
-					if call.cl.fn != nil {
-						i++
-					}
+					i++
 					break
 				}
 			}
 		}
 		if i >= 0 {
+			vm.calls = vm.calls[:i]
 			if call.cl.fn != nil {
-				vm.calls = vm.calls[:i]
 				vm.fp = call.fp
 				vm.pc = call.pc
 				vm.fn = call.cl.fn
